@@ -674,3 +674,41 @@ def storage_alias_writes(index, rels, lanes=("kcals", "fat", "protein")):
                         src = s0.value.args[0] if isinstance(s0, ast.Expr) else next(e for e in s0.value.elts if is_storage(e))
                         out.append((rel, fn, st, base.id + "[...]", norm_src(src)[:80]))
     return out
+
+
+
+def attribute_alias_writes(index, rels):
+    """[(rel, function, statement, alias attribute, aliased attribute)]: `self.A = self.B` (the same object, no copy) followed in the same
+    routine by an in-place change of self.A (`self.A[...] = / += ...`, `self.A += ...` on an array, .fill/.sort): self.B changes with it"""
+    from .core import walk_no_nested, norm_src
+    out = []
+    for rel in rels:
+        for fn in [n for n in ast.walk(index.module(rel)) if isinstance(n, ast.FunctionDef)]:
+            alias = {}
+            for st in walk_no_nested(fn):
+                if isinstance(st, ast.Assign) and len(st.targets) == 1 and isinstance(st.targets[0], ast.Attribute) and isinstance(st.value, ast.Attribute) \
+                        and all(isinstance(x.value, ast.Name) and x.value.id == "self" for x in (st.targets[0], st.value)) and st.targets[0].attr != st.value.attr:
+                    alias.setdefault(st.targets[0].attr, []).append(st)
+            if not alias:
+                continue
+            for st in walk_no_nested(fn):
+                tgt = None
+                if isinstance(st, ast.AugAssign) and isinstance(st.target, ast.Subscript):
+                    tgt = st.target
+                elif isinstance(st, ast.Assign) and any(isinstance(t, ast.Subscript) for t in st.targets):
+                    tgt = [t for t in st.targets if isinstance(t, ast.Subscript)][0]
+                elif isinstance(st, ast.Expr) and isinstance(st.value, ast.Call) and isinstance(st.value.func, ast.Attribute) \
+                        and st.value.func.attr in ("fill", "sort", "resize", "put", "itemset", "partition", "append", "extend", "insert", "pop", "clear"):
+                    tgt = st.value.func.value
+                if tgt is None:
+                    continue
+                base = tgt
+                while isinstance(base, ast.Subscript):
+                    base = base.value
+                if isinstance(base, ast.Attribute) and isinstance(base.value, ast.Name) and base.value.id == "self" and base.attr in alias:
+                    binds = [s_ for s_ in walk_no_nested(fn) if isinstance(s_, ast.Assign) and any(
+                        isinstance(t, ast.Attribute) and isinstance(t.value, ast.Name) and t.value.id == "self" and t.attr == base.attr for t in s_.targets)]
+                    last = [s_ for s_ in binds if s_.lineno < st.lineno]
+                    if last and last[-1] in alias[base.attr]:
+                        out.append((rel, fn, st, base.attr, last[-1].value.attr))
+    return out
